@@ -18,7 +18,7 @@ RULE = ('cases = generated G-SEL spec with 1-4 metric nodes of every direction/r
         'architecture; distinct by sha1(spec, evaluator plan)')
 FUZZ_MODULES = ['adsg_core.optimization.evaluator']   # thorough tier: atheris campaign over these modules (vf/fuzz.py)
 FUZZ_RUNS = 3000
-BUDGET = {'quick': 300, 'thorough': 20000}
+BUDGET = {'quick': 800, 'thorough': 20000}
 
 
 @st.composite
